@@ -181,7 +181,9 @@ Variables snake camel screaming : str -> str.
 (* every .j5s file of the bundle is well formed in its own environment, and the exported
    names of every package are distinct *)
 Definition valid_file (bd : bundle) (f : jfile) : bool :=
-  forallb type_ident_or_seg (jf_dir f) &&
+  (* file_lists_ok: service.go checkListMethod (fix cec4e3a) - a method whose request holds a
+     j5.list.v1.QueryRequest has a response with exactly one array, of objects *)
+  forallb type_ident_or_seg (jf_dir f) && file_lists_ok f &&
   match import_map (jf_imports f) [] with
   | Ok im =>
       forallb (wf_element snake camel (mkEnv (j5s_pkg f) im (pkg_exports camel bd))) (jf_elements f)
